@@ -142,11 +142,13 @@ func diffMaps(a, b map[string]string) string {
 type Case struct {
 	World   world.World `json:"world"`
 	ViaLink bool        `json:"via_link,omitempty"`
+	// the directory handed to ExtractArchive is named relative to the working directory
+	RelExtract bool `json:"rel_extract,omitempty"`
 }
 
-var subSurvive = ev.Register("survive", func(c Case) error { return checkSurvive(c.World, c.ViaLink) })
+var subSurvive = ev.Register("survive", func(c Case) error { return checkSurvive(c.World, c.ViaLink, c.RelExtract) })
 
-func checkSurvive(w world.World, viaLink bool) error {
+func checkSurvive(w world.World, viaLink, relExtract bool) error {
 	exp := world.Reference(w, nFinders)
 	if exp.Error != "" || exp.Ambiguous {
 		ev.Label("not-judged")
@@ -180,9 +182,9 @@ func checkSurvive(w world.World, viaLink bool) error {
 		}
 	}
 	if len(exp.Packages) >= 2 && (rich || len(exp.Selections) > 0) {
-		ev.NonTrivial(Case{w, viaLink}, "multi-package-with-meta-links-or-registry")
+		ev.NonTrivial(Case{w, viaLink, relExtract}, "multi-package-with-meta-links-or-registry")
 	} else if rich || len(exp.Selections) > 0 {
-		ev.NonTrivial(Case{w, viaLink}, "meta-links-or-registry")
+		ev.NonTrivial(Case{w, viaLink, relExtract}, "meta-links-or-registry")
 	}
 	root1 := run.Target
 	d1, err := describe(w, run.Bundle, root1)
@@ -205,7 +207,21 @@ func checkSurvive(w world.World, viaLink bool) error {
 	}
 	root3 := filepath.Join(arena, "b3")
 	os.Mkdir(root3, 0755)
-	b3, err := sourcebundle.ExtractArchive(bytes.NewReader(buf.Bytes()), root3)
+	extractTo := root3
+	if relExtract {
+		// a relative spelling; the working directory moves on afterwards
+		old, _ := os.Getwd()
+		if err := os.Chdir(arena); err != nil {
+			return fmt.Errorf("harness: %v", err)
+		}
+		defer os.Chdir(old)
+		extractTo = "b3"
+	}
+	b3, err := sourcebundle.ExtractArchive(bytes.NewReader(buf.Bytes()), extractTo)
+	if relExtract {
+		os.Chdir(filepath.Join(arena, "real"))
+		os.Chdir(root1)
+	}
 	if err != nil {
 		return fmt.Errorf("ExtractArchive of the archive WriteArchive produced failed: %v", err)
 	}
@@ -236,7 +252,7 @@ func checkSurvive(w world.World, viaLink bool) error {
 func TestPropSurvive(t *testing.T) {
 	ev.Check(t, subSurvive, func(t *rapid.T) Case {
 		w := world.Gen(t, world.Config{MaxRemotes: 4, MaxRegistry: 3, NFinders: nFinders, Clones: true, Meta: true, RichTrees: true, OddSubPaths: true})
-		return Case{World: w, ViaLink: rapid.IntRange(0, 3).Draw(t, "vialink") == 0}
+		return Case{World: w, ViaLink: rapid.IntRange(0, 3).Draw(t, "vialink") == 0, RelExtract: rapid.IntRange(0, 3).Draw(t, "relextract") == 0}
 	})
 }
 
